@@ -41,8 +41,17 @@ def _taint_problems(proj: Project, cg, f, seen=None, depth=0) -> List[str]:
             out.append(f"{f.loc(n)}: f-string rendering in {f.short}")
         elif isinstance(n, ast.Call):
             name = dotted(n.func)
+            # a rendering function handed over as a value (sorted(..., key=repr), map(str, ...)) renders the items
+            handed = [a for a in list(n.args) + [k.value for k in n.keywords]
+                      if isinstance(a, ast.Name) and a.id in RENDER_CALLS]
+            if handed and not (isinstance(n.func, ast.Name) and n.func.id in ("isinstance", "issubclass")):
+                items = [a for a in n.args if a not in handed]
+                if not items or any(_may_hold_set(a, env) for a in items):
+                    out.append(f"{f.loc(n)}: `{handed[0].id}` applied as a function to values that may hold sets in "
+                               f"{f.short} (the text of a set follows its arbitrary iteration order): `{src(n)[:90]}`")
             if isinstance(n.func, ast.Name) and n.func.id in RENDER_CALLS:
-                out.append(f"{f.loc(n)}: {n.func.id}(...) rendering in {f.short}: `{src(n)[:70]}`")
+                if not n.args or _may_hold_set(n.args[0], env):
+                    out.append(f"{f.loc(n)}: {n.func.id}(...) rendering in {f.short}: `{src(n)[:70]}`")
             elif isinstance(n.func, ast.Attribute) and n.func.attr in ("join", "format", "replace", "strip", "split"):
                 out.append(f"{f.loc(n)}: text operation .{n.func.attr}() in {f.short}: `{src(n)[:70]}`")
             elif isinstance(n.func, ast.Name) and n.func.id in ORDERING_CTORS and n.args:
@@ -64,6 +73,37 @@ def _taint_problems(proj: Project, cg, f, seen=None, depth=0) -> List[str]:
     for p in cg.property_reads(f):
         out.extend(_taint_problems(proj, cg, p, seen, depth + 1))
     return out
+
+
+SET_FREE_TYPES = {"int", "float", "str", "bool", "None", "Element", "bytes", "complex"}
+
+
+def _type_may_hold_set(t) -> bool:
+    """True unless the static type is known to be built from scalars / Elements only (their text is canonical)."""
+    if t is None:
+        return True
+    if t.is_set:
+        return True
+    if t.name in SET_FREE_TYPES:
+        return False
+    if t.name in ("List", "list", "Tuple", "tuple", "Dict", "dict", "Iterator", "Iterable", "Sequence", "Optional", "Union") and t.args:
+        return any(_type_may_hold_set(a) for a in t.args)
+    return True         # unknown types, Ranking, Dataset, ... : their rendering may walk a set
+
+
+def _may_hold_set(node, env) -> bool:
+    if isinstance(node, ast.Constant):
+        return False
+    if isinstance(node, (ast.GeneratorExp, ast.ListComp, ast.SetComp)):
+        return _may_hold_set(node.elt, env) or isinstance(node, ast.SetComp)
+    if isinstance(node, ast.Call) and isinstance(node.func, ast.Name) and node.func.id in ("frozenset", "set"):
+        return True
+    if isinstance(node, ast.Call) and isinstance(node.func, ast.Name) and node.func.id in ("tuple", "list", "sorted") and node.args:
+        return _may_hold_set(node.args[0], env)
+    try:
+        return _type_may_hold_set(env.type_of(node))
+    except Exception:
+        return True
 
 
 def _is_set_typed(node, env) -> bool:
@@ -210,6 +250,41 @@ def run(ctx) -> Result:
               bad_detail=f"{asym[0]} equality not symmetric on {asym[1]} vs {asym[2]}" if asym else "")
     res.check(refl is None, "Y3", "eq:reflexive", deq.loc(), ok_detail="every dataset equals itself",
               bad_detail=f"Dataset({refl}) != itself" if refl else "")
+    # ------------------------------------------------------------------ Y4: equality follows the current content
+    res.rule("Y4", "equality is decided on what the datasets contain now: compared, modified in place, compared again", 1)
+    starts = [[[{1}, {2, 3}], [], [{3}, {1}], [{4}], []], [[{1}, {2}], [{2}, {1}], [{3}]], [[{"a"}, {"b"}], [], [{"b"}]]]
+    muts = [("remove_empty_rankings", None), ("remove_elements", "first"), ("remove_elements_rate_presence_lower_than", 0.5)]
+    bad = None
+    n_h = 0
+    for raws in starts:
+        for op, arg in muts:
+            d, same = w.dataset(raws), w.dataset(raws)
+            first = w.safe("Dataset.__eq__", lambda: d == same)
+            st, _r = "ok", None
+            if op == "remove_elements":
+                victim = sorted({x for r in raws for b in r for x in b}, key=repr)[0]
+                st, _r = w.safe(op, w.call, d, op, {w.element(victim)})
+            elif arg is None:
+                st, _r = w.safe(op, w.call, d, op)
+            else:
+                st, _r = w.safe(op, w.call, d, op, arg)
+            if st != "ok":
+                continue
+            n_h += 1
+            now = [[{v for _t, v in b} for b in r] for r in w.raw_dataset(d)]
+            fresh = w.dataset(now)
+            changed = Counter(tuple(frozenset(x) for x in r) for r in w.raw_dataset(d)) != \
+                Counter(tuple(frozenset(x) for x in r) for r in w.raw_dataset(same))
+            for label, other, want in (("the unmodified copy", same, not changed), ("a fresh dataset of its current rankings", fresh, True)):
+                for swap in (False, True):
+                    st2, got = w.safe("Dataset.__eq__", (lambda: other == d) if swap else (lambda: d == other))
+                    if st2 != "ok" or bool(got) != want:
+                        bad = bad or (raws, op, label, got, want, now)
+    res.check(bad is None and first[0] == "ok", "Y4", "Dataset.__eq__:after-in-place-modification", deq.loc(),
+              ok_detail=f"{n_h} histories (compare, {', '.join(m for m, _ in muts)}, compare again): equality follows the "
+                        f"current rankings",
+              bad_detail=(f"Dataset({bad[0]}) compared once, then {bad[1]}() (it now holds {bad[5]}): compared with {bad[2]} "
+                          f"gives {bad[3]!r}, expected {bad[4]}") if bad else "")
     res.assumptions.append("set iteration order is abstracted away by the evaluator (canonical order); rule Y1 is what "
                            "guarantees the real result cannot depend on it")
     return res
